@@ -474,4 +474,140 @@ fn u70_insert_node(n: usize, at: usize) {
 	std::mem::forget(node);
 }
 
+// ================================================================== U71: Node::insert at leaf level (depth 0) -- a key enters a leaf, a full leaf is split
+// Leaf keys are one byte, 2, 4, .. 2n (so odd bytes are absent keys); every separator carries its key as tag in its value
+// address.  Node::create_separator (writes the value entry) is replaced by its contract: a separator with the key handed in and
+// a fresh address (5000 + key) -- or, for an existing key, told which address it overwrites.
+pub(crate) static mut CREATED_EXISTING: Option<u64> = None;
+pub(crate) static mut CREATED_N: usize = 0;
+pub(crate) fn stub_create_separator(key: &[u8], _value: &[u8], _btree: TablesRef, _log: &mut LogWriter, existing: Option<Address>) -> Result<Separator> {
+	unsafe {
+		CREATED_N += 1;
+		CREATED_EXISTING = existing.map(|a| a.as_u64());
+	}
+	let mut k = Vec::with_capacity(1);
+	k.push(key[0]);
+	Ok(Separator { modified: true, separator: Some(SeparatorInner { key: k, value: Address::from_u64(5000 + key[0] as u64) }) })
+}
+fn mk_leaf_keys(n: usize) -> Node {
+	let mut node = Node { separators: Default::default(), children: Default::default(), changed: false };
+	let mut i = 0;
+	while i < n {
+		let kb = (2 * (i + 1)) as u8;
+		let mut k = Vec::with_capacity(1);
+		k.push(kb);
+		node.separators[i] = Separator { modified: false, separator: Some(SeparatorInner { key: k, value: Address::from_u64(kb as u64) }) };
+		i += 1;
+	}
+	node
+}
+fn sep_key(n: &Node, i: usize) -> u8 {
+	match n.separators[i].separator.as_ref() {
+		Some(s) => if s.key.len() == 1 { s.key[0] } else { 0 },
+		None => 0,
+	}
+}
+fn u71_insert_leaf(n: usize) {
+	let tables: [crate::table::ValueTable; 0] = [];
+	let no = crate::compress::Compress::new(crate::compress::CompressionType::NoCompression, u32::MAX);
+	let tr = TablesRef { tables: &tables, compression: &no, col: 0, preimage: false, ref_counted: false };
+	let overlays: &'static crate::parking_lot::RwLock<crate::log::LogOverlays> = Box::leak(Box::new(crate::parking_lot::RwLock::new(crate::log::LogOverlays::with_columns(0))));
+	let w: &'static mut LogWriter<'static> = Box::leak(Box::new(LogWriter::new(overlays, 7)));
+	let mut node = mk_leaf_keys(n);
+	let kb: u8 = kani::any();
+	kani::assume(kb >= 1 && (kb as usize) <= 2 * n + 1);
+	let key = [kb];
+	let value = [9u8];
+	unsafe {
+		SPLIT_RIGHT = None;
+		CREATED_N = 0;
+		CREATED_EXISTING = None;
+	}
+	let ops: [Operation<RcKey, RcValue>; 0] = [];
+	let mut changes: &[Operation<RcKey, RcValue>] = &ops;
+	let r = ok(node.insert(0, &key, &value, &mut changes, tr, w));
+	assert!(r.is_some(), "U71.insert.no_error");
+	let (up, rebalance) = r.unwrap();
+	assert!(!rebalance, "U71.insert.an_insert_never_asks_for_a_rebalance");
+	assert!(unsafe { CREATED_N } == 1, "U71.insert.exactly_one_value_entry_is_written");
+	let present = kb % 2 == 0;
+	if present {
+		// overwrite: same keys, the separator of the key now carries the new value; the old value's address was handed to the writer
+		assert!(up.is_none() && unsafe { SPLIT_RIGHT.is_none() }, "U71.insert.overwriting_a_key_splits_nothing");
+		assert!(unsafe { CREATED_EXISTING } == Some(kb as u64), "U71.insert.overwrite_is_told_the_address_of_the_old_value");
+		assert!(count_seps(&node) == n && packed(&node, false), "U71.insert.overwrite_keeps_the_keys");
+		let mut i = 0;
+		while i < n {
+			let k = (2 * (i + 1)) as u8;
+			assert!(sep_key(&node, i) == k, "U71.insert.overwrite_keeps_the_keys");
+			assert!(sep_tag(&node, i) == if k == kb { 5000 + kb as u64 } else { k as u64 }, "U71.insert.only_the_value_of_the_key_changes");
+			i += 1;
+		}
+	} else {
+		assert!(unsafe { CREATED_EXISTING }.is_none(), "U71.insert.a_new_key_overwrites_nothing");
+		// in-order keys afterwards: the old keys plus kb, ascending, each with its own value
+		let mut got_k = [0u8; 10];
+		let mut got_v = [0u64; 10];
+		let mut g = 0;
+		let nl = count_seps(&node);
+		assert!(packed(&node, false), "U71.insert.left_node_is_packed");
+		let mut i = 0;
+		while i < nl {
+			got_k[g] = sep_key(&node, i);
+			got_v[g] = sep_tag(&node, i);
+			g += 1;
+			i += 1;
+		}
+		match &up {
+			None => assert!(n < ORDER && unsafe { SPLIT_RIGHT.is_none() }, "U71.insert.a_full_leaf_is_split"),
+			Some((s, c)) => {
+				assert!(n == ORDER, "U71.insert.only_a_full_leaf_is_split");
+				let right = unsafe { SPLIT_RIGHT.as_ref() };
+				assert!(right.is_some(), "U71.insert.right_node_is_written");
+				let right = right.unwrap();
+				assert!(packed(right, false), "U71.insert.right_node_is_packed");
+				let nr = count_seps(right);
+				assert!(nl >= 1 && nr >= 1 && nl + nr == ORDER, "U71.insert.both_halves_hold_keys_and_none_is_lost");
+				match s.separator.as_ref() {
+					Some(x) => {
+						got_k[g] = if x.key.len() == 1 { x.key[0] } else { 0 };
+						got_v[g] = x.value.as_u64();
+					},
+					None => assert!(false, "U71.insert.separator_handed_up_is_a_key"),
+				}
+				g += 1;
+				let mut i = 0;
+				while i < nr {
+					got_k[g] = sep_key(right, i);
+					got_v[g] = sep_tag(right, i);
+					g += 1;
+					i += 1;
+				}
+			},
+		}
+		assert!(g == n + 1, "U71.insert.one_key_more");
+		let mut j = 0;
+		let mut seen_new = false;
+		while j < 10 {
+			if j < n + 1 {
+				if j > 0 {
+					assert!(got_k[j - 1] < got_k[j], "U71.insert.keys_stay_in_ascending_order");
+				}
+				if got_k[j] == kb {
+					seen_new = true;
+					assert!(got_v[j] == 5000 + kb as u64, "U71.insert.new_key_carries_the_new_value");
+				} else {
+					assert!(got_k[j] % 2 == 0 && got_k[j] >= 2 && got_k[j] as usize <= 2 * n && got_v[j] == got_k[j] as u64, "U71.insert.old_keys_keep_their_values");
+				}
+			}
+			j += 1;
+		}
+		assert!(seen_new, "U71.insert.the_new_key_is_in_the_tree");
+	}
+	kani::cover!(present || n == 0, "overwrite");
+	kani::cover!(!present, "new key");
+	std::mem::forget(up);
+	std::mem::forget(node);
+}
+
 /*@@GENERATED:btree_node@@*/
